@@ -87,6 +87,27 @@ def run(ck, facts):
                       "#[diplomat::abi_rename] no longer overrides the module's)" % fld_, C.loc(aa, n_.get("ln")))
     if nrec < 4:
         ck.bad("R4", "ast::Attrs::add_attr/floor", "only %d recording calls found in Attrs::add_attr (4 counted: cfg, attrs, abi_rename, demo_attrs)" % nrec, C.loc(aa))
+    # RenameAttr::apply is total: with a pattern present every result is built from the pattern (no path hands the name back unchanged because of what the
+    # name looks like -- `{0}_v2` applied to `parse_v2` is `parse_v2_v2`, the symbol the macro exports)
+    ap = core.fn("ast::attrs::RenameAttr::apply")
+    ap_params = {p_.get("id") for p_ in ap["hir"].get("params", []) if isinstance(p_, dict)}
+
+    def has_pattern(c_):
+        return c_.get("k") == "let" and (c_.get("pat") or {}).get("v") == "Some" and any(y.get("k") == "field" and y.get("n") == "pattern" for y in C.walk(c_.get("init") or {}))
+    bare = []
+    for n_, st_ in C.with_conditions(C.fn_body(ap)):
+        val = None
+        if n_.get("k") == "ret":
+            val = n_.get("e")
+        elif n_.get("k") == "block" and n_.get("e") is not None:
+            val = n_["e"]
+        v_ = C.strip(val) if val is not None else None
+        while isinstance(v_, dict) and v_.get("k") == "mcall" and v_.get("m") in ("into", "clone", "to_owned", "into_owned") and not v_.get("a"):
+            v_ = C.strip(v_["recv"])
+        if isinstance(v_, dict) and v_.get("k") == "local" and v_.get("id") in ap_params and C.asserted(st_, has_pattern):
+            bare.append(n_.get("ln") or val.get("ln"))
+    ck.expect(not bare, "R1", "RenameAttr::apply/pattern-always-applied", "", "RenameAttr::apply returns the name unchanged on a path where a pattern is present: the symbol is no longer "
+              "pattern(Type_method) for names that happen to look renamed already (all backends follow the AST, so they agree with each other and with nothing documented)", C.loc(ap, bare[0] if bare else None))
     f = core.fn("ast::opaque::OpaqueType::dtor_abi_name")
     defs = flow.defs_of(f)
     applies = [n for n in C.walk(C.fn_body(f)) if n.get("k") == "mcall" and n.get("m") == "apply"]
@@ -177,6 +198,20 @@ def run(ck, facts):
         for _, leaves in res:
             ok, sym = only_fields(leaves, allowed)
             ck.expect(ok, "R2", key, str(sorted(sym)), "native symbol slot derives from %s, expected %s" % (sorted(sym) or sorted(leaves)[:3], allowed), C.loc(f))
+        # the slot is filled for every item that is generated at all: the only return that comes before the construction is the one for a disabled item
+        body_ = C.fn_body(f)
+        top_ = list(body_.get("s") or []) + ([body_["e"]] if body_.get("e") is not None else [])
+        i_slot = next((i for i, st_ in enumerate(top_) if any(x.get("k") == "struct" and (x.get("adt") or "").endswith("::" + adt) and any(fl.get("n") == field for fl in x.get("fields") or []) for x in C.walk(st_))), None)
+        if i_slot is not None:
+            early = []
+            for n_, stk in C.with_conditions(body_):
+                if n_.get("k") != "ret" or not any(any(x is n_ for x in C.walk(st_)) for st_ in top_[:i_slot]):
+                    continue
+                if any(k_ == "if" and any(y.get("k") == "field" and y.get("n") == "disable" for y in C.walk(c_)) for k_, c_, _ in stk):
+                    continue
+                early.append(n_.get("ln"))
+            ck.expect(not early, "R2", key + "/filled-on-every-path", "", "%s returns before `%s.%s` is filled (line %s) for items that are still generated: their native symbol (e.g. the destructor of an opaque "
+                      "type without methods) is never declared, while other generated code refers to it" % (path.split("::")[-1], adt, field, early[:2]), C.loc(f))
     # kotlin native method names (format strings, not struct slots)
     for path, var in (("kotlin::TyGenContext::gen_native_method_info", "native_method"), ("kotlin::TyGenContext::gen_method", "native_method_name")):
         f = tool.fn(path)
